@@ -703,6 +703,11 @@ func (c *Client) SetRootsProvider(provider RootsProvider) {
 
 // SendRootsListChangedNotification notifies server that roots changed.
 func (c *Client) SendRootsListChangedNotification(ctx context.Context) error {
+	// Check if initialized.
+	if !c.isInitialized() {
+		return errors.ErrNotInitialized
+	}
+
 	// Create roots list changed notification.
 	notification := NewJSONRPCNotificationFromMap(MethodNotificationsRootsListChanged, nil)
 	return c.transport.sendNotification(ctx, notification)
